@@ -12,6 +12,7 @@ JOBS = {"quick": 4, "thorough": 16}
 def _one(ctx, sc, entry, stats, sample=False):
     recs, h, w = rig.run(sc, entry)
     ctx.inc("runs")
+    ctx.inc("calls", len(recs))
     common.check_recs(ctx, sc, entry, recs, [O.o_surface], stats)
     for rec in recs:
         v = View(rec, sc)
@@ -70,7 +71,7 @@ def conclude(ctx):
             "non-trivial = run of >= 2 attempts ending in a value, a stop or a deferral (identity of the delivered object against unique scripted objects is decisive); "
             "cells end:<how>/<stop reason>/<final cause>/<previous attempt's cause>"
         ),
-        evaluations=ctx.cnt["runs"],
+        evaluations=ctx.cnt["calls"],
         nontrivial=len(ctx.sets["nontrivial"]),
         floors=floors,
         assumptions=common.ASSUME_COMMON + ["every attempt's value / exception / result is a unique scripted object, so `is` identifies the attempt it came from"],
